@@ -4,10 +4,11 @@ pub mod c09;
 pub mod c10;
 pub mod c14;
 pub mod c17;
+pub mod sigs;
 pub mod c09b;
 
 use crate::runner::Check;
 
 pub fn all() -> Vec<Check> {
-    vec![c01::check(), c03::check(), c09::check(), c10::check(), c14::check(), c17::check()]
+    vec![c01::check(), sigs::check_c02(), c03::check(), sigs::check_c06(), c09::check(), c10::check(), c14::check(), c17::check()]
 }
